@@ -52,8 +52,23 @@ def run(chk):
     chk.floor('obligations', len(chk.obs), 120)
 
 
+def holders(chk, names):
+    """the given types plus every crate-local struct that (transitively) has a field of one of them"""
+    out = set(names)
+    adts = chk.facts.get('adts', [])
+    changed = True
+    while changed:
+        changed = False
+        for a in adts:
+            if a['name'] not in out and any(ty_mentions(f['ty'], out) for f in a['fields']):
+                out.add(a['name'])
+                changed = True
+    return out
+
+
 def census(chk):
     names = {VA, PA}
+    deep = holders(chk, {VA, PA, PG, FR})
     to_audit = {}
     n_agg = 0
     n_fields = 0
@@ -84,7 +99,7 @@ def census(chk):
                     n_fields += 1
                     if f['name'] not in CONSTRUCTORS:
                         to_audit.setdefault(f['name'], f)
-            if rv['k'] == 'cast' and rv.get('kind') == 'Transmute' and ty_mentions(rv.get('ty'), names):
+            if rv['k'] == 'cast' and rv.get('kind') == 'Transmute' and ty_mentions(rv.get('ty'), deep):
                 n_trans += 1
                 chk.ob('who-may-construct', 'transmute into a type holding an address in %s' % f['name'], False, 'transmute to %s' % (rv.get('ty'),), f['loc'])
         # references to the raw field handed out mutably
